@@ -38,6 +38,8 @@ func uniqueName(i, L int) string {
 	return s
 }
 
+var oddNames = []string{".a", ".b", ".x", ".1", "..z", "..a", "...", ".hidden", ".. ", ". ", "a.", "a..", " ", "  ", "-", "--", "~", "a b", "ä", "日本", "A", "a", "Ab", "aB", "\\", "*", "?", "a:b", "\"q\"", "'", "%41", "+"}
+
 type dirSpec struct {
 	Size    int    `json:"size"`
 	Profile string `json:"profile"`
@@ -60,6 +62,14 @@ func (d dirSpec) names(rng *rand.Rand) []string {
 			L = 255
 		case "mixed":
 			L = []int{1, 2, 3, 7, 8, 9, 23, 24, 25, 47, 100, 200, 255}[rng.Intn(13)]
+		case "odd":
+			// valid names that LOOK special: leading dots (the entries "." and ".." are synthesised by the runtime, every
+			// other name is the host's), trailing dots, spaces, dashes, non-ASCII, names that differ only in case
+			if i < len(oddNames) {
+				out[i] = oddNames[i]
+				continue
+			}
+			L = 3
 		}
 		out[i] = uniqueName(i, L)
 	}
@@ -341,6 +351,9 @@ func readdirSweep(root string) {
 		for _, p := range profiles {
 			jobs = append(jobs, job{len(jobs), dirSpec{sz, p}})
 		}
+	}
+	for _, sz := range []int{1, 2, 5, len(oddNames) / 2, len(oddNames), len(oddNames) + 9} {
+		jobs = append(jobs, job{len(jobs), dirSpec{sz, "odd"}})
 	}
 	base := filepath.Join(root, "rd")
 	os.MkdirAll(base, 0o755)
